@@ -139,6 +139,10 @@ def run(tier):
         rep.check(okw, "adjacent-value-recorded", short(fk), "the position after a JSON-like key is no longer recorded in adjacent_value_allowed_at on every "
                   "accepting path: `\"a\":1` inside a flow collection stops being a key/value pair", site=f.span, detail=det)
     rep.floor("writes of the adjacent-value position", adjacent_position_is_final(rep, F), 2)
+    # "regardless of how the JSON is spaced": the blanks after a quoted string are skipped with Input::skip_ws_to_eol before the scanner asks
+    # what follows; the string back-end's override must skip what the provided body skips (C10's clause, run here as a premise)
+    from . import C10 as _C10
+    _C10.skip_ws_to_eol_agreement(rep, F, tier, "blank-skip-agreement")
     # (d) inside a flow collection a pending simple key is never given up because of its length or because it spans lines
     # (JSON member names and their ':' may be arbitrarily far apart): in stale_simple_keys every `possible = false` and every error
     # is dominated by the true edge of `flow_level == 0`
